@@ -198,7 +198,14 @@ impl Storable for AnnotationDataSet {
                 if let Some((oldkey, Some(datahandle))) = existing {
                     if oldkey != data.key {
                         self.key_data_map.remove(oldkey, datahandle);
-                        self.key_data_map.insert(data.key, datahandle);
+                        //(rows are kept in handle order)
+                        match self.key_data_map.data.get_mut(data.key.as_usize()) {
+                            Some(row) => {
+                                let pos = row.partition_point(|h| *h < datahandle);
+                                row.insert(pos, datahandle);
+                            }
+                            None => self.key_data_map.insert(data.key, datahandle),
+                        }
                     }
                 }
                 self.insert(data.unbind())?;
